@@ -216,6 +216,22 @@ func init() {
 					}
 					w.backing("add", s0, w.snap(sym))
 					s1 := w.snap(sym)
+					if rng.Chance(1, 4) {
+						// first ask for more units than the provider holds (one more, twice as many, half-way to the pool's
+						// units): refused, nothing changes — were it paid, the round trip below would return more of both tokens
+						held := lp.LiquidityProviderUnits.BigInt()
+						over := new(big.Int).Add(held, big.NewInt(1))
+						switch rng.Intn(3) {
+						case 1:
+							over = new(big.Int).Lsh(held, 1)
+						case 2:
+							over = new(big.Int).Rsh(new(big.Int).Add(held, s1.P), 1)
+							if over.Cmp(held) <= 0 {
+								over = new(big.Int).Add(held, big.NewInt(1))
+							}
+						}
+						w.opRmu(u, sym, over)
+					}
 					w.opRmu(u, sym, lp.LiquidityProviderUnits.BigInt())
 					if _, err := w.app.ClpKeeper.GetLiquidityProvider(w.ctx, sym, u.String()); err == nil {
 						// removal refused (e.g. zero units): take the provider out of the way for later cases
